@@ -2,7 +2,7 @@
 from ..framework import Check
 from .. import mgr_check
 
-THEOREMS = ['C05_stamp', 'C05_sendall_appends', 'C05_failed_notice_sized', 'C05_ack_is_whole_frame', 'C05_forward_sized', 'C05_ex', 'C05_stream_frames', 'C05_append_only', 'C05_per_connection_order', 'C05_service_appends']
+THEOREMS = ['C05_stamp', 'C05_sendall_appends', 'C05_failed_notice_sized', 'C05_ack_is_whole_frame', 'C05_forward_sized', 'C05_ex', 'C05_stream_frames', 'C05_append_only', 'C05_per_connection_order', 'C05_service_appends', 'C05_sender_order', 'C05_same_relative_order', 'C05_in_order_meaning', 'C05_order_served_ex']
 CHECKERS = ['C05', 'C03']
 
 
